@@ -517,7 +517,7 @@ void oracle_c07_invariants(Plan const& p, RunOut const& out, ChkptView const& v,
 }
 
 // equal share of the smoothed, damped importance: reference model in long double
-void oracle_c07_share(Plan const& p, ChkptView const& v, Report& rep)
+void oracle_c07_share(Plan const& p, ChkptView const& v, Report& rep, bool used_grids)
 {
     if (p.integ != VEGAS) return;
 
@@ -535,7 +535,15 @@ void oracle_c07_share(Plan const& p, ChkptView const& v, Report& rep)
         {
             ld const* data = &rv.adj[d * B];
             ld const* oldg = &rv.pdf[d * (B + 1)];
+            // the refinement as the library's function returns it, or (used_grids) the grid the next
+            // iteration was really drawn with / the checkpoint hands out for it
             ld const* newg = &rv.refined[d * (B + 1)];
+            if (used_grids)
+            {
+                if (k + 1 < v.results.size() && v.results[k + 1].pdf.size() == rv.pdf.size()) newg = &v.results[k + 1].pdf[d * (B + 1)];
+                else if (k + 1 == v.results.size() && v.has_next && v.next.size() == rv.pdf.size()) newg = &v.next[d * (B + 1)];
+                else continue;
+            }
 
             std::vector<ld> t(B);
             ld norm = 0;
